@@ -1,13 +1,604 @@
 package main
 
-import "fmt"
+// C09 / H2: a fix-point argument over the grammar the parser is generated from, decided by
+// z3's fixed-point engine, tied to the real code in two ways: (1) the set of filtered rules
+// is read from the SSA of frontend.DefaultCypherContext (the EnterOC_* methods declared on
+// the filter types it installs), and (2) the rule-reference graph of the grammar must equal
+// the call graph of the generated parser's rule methods. Probe queries are run through the
+// natively linked front end to confirm any alarm.
 
-func runHorn(ps *PropSpec, tier string, seed int) int {
-	fmt.Println("horn driver not built yet")
-	return 2
+import (
+	"bytes"
+	"encoding/json"
+	"fmt"
+	"go/types"
+	"os"
+	"os/exec"
+	"path/filepath"
+	"sort"
+	"strings"
+	"time"
+	"unicode"
+
+	"golang.org/x/tools/go/ssa"
+
+	"github.com/specterops/dawgs/cypher/frontend"
+	"github.com/specterops/dawgs/cypher/models/cypher"
+	"github.com/specterops/dawgs/cypher/models/walk"
+
+	"verif/engine/symgo"
+)
+
+type gElem struct {
+	rule     string   // rule reference (lower-case first letter) or ""
+	token    string   // token reference or literal
+	block    [][]gElem // parenthesised alternatives
+	optional bool      // ? or *
 }
 
+type grammar struct {
+	rules map[string][][]gElem
+	order []string
+}
+
+// parseG4 reads the parser rules (names starting with a lower-case letter) of an ANTLR4
+// grammar; lexer rules are skipped.
+func parseG4(src string) (*grammar, error) {
+	// strip comments
+	var sb strings.Builder
+	for i := 0; i < len(src); i++ {
+		if strings.HasPrefix(src[i:], "/*") {
+			j := strings.Index(src[i+2:], "*/")
+			if j < 0 {
+				break
+			}
+			i += j + 3
+			continue
+		}
+		if strings.HasPrefix(src[i:], "//") {
+			j := strings.IndexByte(src[i:], '\n')
+			if j < 0 {
+				break
+			}
+			i += j
+			continue
+		}
+		if src[i] == '\'' {
+			j := i + 1
+			for j < len(src) && src[j] != '\'' {
+				if src[j] == '\\' {
+					j++
+				}
+				j++
+			}
+			if j >= len(src) {
+				j = len(src) - 1
+			}
+			sb.WriteString(src[i : j+1])
+			i = j
+			continue
+		}
+		sb.WriteByte(src[i])
+	}
+	toks := g4Tokens(sb.String())
+	g := &grammar{rules: map[string][][]gElem{}}
+	i := 0
+	// skip "grammar X ;"
+	for i < len(toks) && toks[i] != ";" {
+		i++
+	}
+	i++
+	for i < len(toks) {
+		name := toks[i]
+		if name == "fragment" {
+			i++
+			name = toks[i]
+		}
+		if i+1 >= len(toks) || toks[i+1] != ":" {
+			return nil, fmt.Errorf("grammar: expected ':' after %q", name)
+		}
+		i += 2
+		start := i
+		depth := 0
+		for i < len(toks) && !(toks[i] == ";" && depth == 0) {
+			if toks[i] == "(" {
+				depth++
+			} else if toks[i] == ")" {
+				depth--
+			}
+			i++
+		}
+		body := toks[start:i]
+		i++
+		if name == "" || !unicode.IsLower(rune(name[0])) {
+			continue // lexer rule
+		}
+		alts, rest, err := g4Alts(body)
+		if err != nil || len(rest) != 0 {
+			return nil, fmt.Errorf("grammar: rule %s: %v (rest %v)", name, err, rest)
+		}
+		g.rules[name] = alts
+		g.order = append(g.order, name)
+	}
+	return g, nil
+}
+
+func g4Tokens(s string) []string {
+	var out []string
+	for i := 0; i < len(s); {
+		c := s[i]
+		switch {
+		case c == ' ' || c == '\t' || c == '\n' || c == '\r':
+			i++
+		case c == '\'':
+			j := i + 1
+			for j < len(s) && s[j] != '\'' {
+				if s[j] == '\\' {
+					j++
+				}
+				j++
+			}
+			out = append(out, s[i:j+1])
+			i = j + 1
+		case c == '[':
+			j := i + 1
+			for j < len(s) && s[j] != ']' {
+				if s[j] == '\\' {
+					j++
+				}
+				j++
+			}
+			out = append(out, s[i:j+1])
+			i = j + 1
+		case unicode.IsLetter(rune(c)) || c == '_':
+			j := i
+			for j < len(s) && (unicode.IsLetter(rune(s[j])) || unicode.IsDigit(rune(s[j])) || s[j] == '_') {
+				j++
+			}
+			out = append(out, s[i:j])
+			i = j
+		default:
+			out = append(out, string(c))
+			i++
+		}
+	}
+	return out
+}
+
+func g4Alts(toks []string) ([][]gElem, []string, error) {
+	var alts [][]gElem
+	for {
+		seq, rest, err := g4Seq(toks)
+		if err != nil {
+			return nil, nil, err
+		}
+		alts = append(alts, seq)
+		toks = rest
+		if len(toks) > 0 && toks[0] == "|" {
+			toks = toks[1:]
+			continue
+		}
+		return alts, toks, nil
+	}
+}
+
+func g4Seq(toks []string) ([]gElem, []string, error) {
+	var seq []gElem
+	for len(toks) > 0 && toks[0] != "|" && toks[0] != ")" {
+		var e gElem
+		t := toks[0]
+		switch {
+		case t == "(":
+			alts, rest, err := g4Alts(toks[1:])
+			if err != nil {
+				return nil, nil, err
+			}
+			if len(rest) == 0 || rest[0] != ")" {
+				return nil, nil, fmt.Errorf("missing )")
+			}
+			e.block = alts
+			toks = rest[1:]
+		case t == "~":
+			// negated set: a token
+			e.token = "~"
+			toks = toks[2:]
+		case t[0] == '\'' || t[0] == '[' || t == ".":
+			e.token = t
+			toks = toks[1:]
+		case unicode.IsUpper(rune(t[0])):
+			e.token = t
+			toks = toks[1:]
+		case unicode.IsLower(rune(t[0])):
+			e.rule = t
+			toks = toks[1:]
+		default:
+			return nil, nil, fmt.Errorf("unexpected token %q", t)
+		}
+		if len(toks) > 0 && (toks[0] == "?" || toks[0] == "*") {
+			e.optional = true
+			toks = toks[1:]
+		} else if len(toks) > 0 && toks[0] == "+" {
+			toks = toks[1:]
+		}
+		if len(toks) > 0 && toks[0] == "?" { // non-greedy marker
+			toks = toks[1:]
+		}
+		seq = append(seq, e)
+	}
+	return seq, toks, nil
+}
+
+var c09TargetRules = []string{"oC_Create", "oC_Merge", "oC_CreateUnique", "oC_Foreach", "oC_Delete", "oC_Set", "oC_Remove",
+	"oC_InQueryCall", "oC_StandaloneCall", "oC_ExplicitProcedureInvocation", "oC_ImplicitProcedureInvocation", "oC_Parameter"}
+
+var c09Probes = []string{
+	"create (n:User {name: 'x'})",
+	"create (n) return n",
+	"match (n) set n.owned = true return n",
+	"match (n) set n.owned = true with n return n",
+	"match (n) remove n.owned return n",
+	"match (n) delete n",
+	"match (n) detach delete n",
+	"match (n) where n.name = 'x' detach delete n",
+	"merge (n:User {name: 'x'}) return n",
+	"merge (n:User {name: 'x'}) on create set n.a = 1 return n",
+	"match (a), (b) create (a)-[:MemberOf]->(b)",
+	"match (n) with n create (m) return m",
+	"unwind [1,2] as x create (n {v: x})",
+	"match (n) where n.name = $p return n",
+	"match (n) return n skip $s limit 1",
+	"call db.labels()",
+	"call db.labels() yield label return label",
+	"match (n) call db.labels() yield label return n, label",
+	"match (n) foreach (x in [1] | set n.v = x)",
+	"create unique (n)-[:R]->(m)",
+	"match (n) where (n)-[:MemberOf*1..]->() set n.t = 1 return n",
+}
+
+type hornResult struct {
+	Rules          int               `json:"grammar_rules"`
+	Filtered       []string          `json:"filtered_rules_from_default_context"`
+	Targets        []string          `json:"target_rules"`
+	MissingTargets []string          `json:"target_rules_missing_from_grammar,omitempty"`
+	Clauses        int               `json:"horn_clauses"`
+	Verdict        string            `json:"z3_fixedpoint_verdict"`
+	SolverS        float64           `json:"solver_time_s"`
+	GraphMismatch  []string          `json:"grammar_vs_parser_call_graph_mismatches,omitempty"`
+	ParserRules    int               `json:"parser_rule_methods"`
+	Probes         int               `json:"probe_queries"`
+	ProbeAccepted  []string          `json:"probe_queries_accepted_with_forbidden_construct,omitempty"`
+	Notes          []string          `json:"notes,omitempty"`
+	Unsupported    []string          `json:"rules_rejected_by_every_visitor_not_counted"`
+	Query          string            `json:"query"`
+	Sample         map[string]string `json:"sample_rule_encoding"`
+}
+
+// runHornC09 performs H2. It returns the result, the violations (with replay files) and
+// whether the argument is complete.
+func runHornC09(pg *symgo.Program) (*hornResult, []string, bool) {
+	res := &hornResult{Sample: map[string]string{}}
+	complete := true
+	src, err := os.ReadFile(filepath.Join(repoRoot, "cypher", "grammar", "Cypher.g4"))
+	if err != nil {
+		res.Notes = append(res.Notes, "cannot read grammar: "+err.Error())
+		return res, nil, false
+	}
+	g, err := parseG4(string(src))
+	if err != nil {
+		res.Notes = append(res.Notes, err.Error())
+		return res, nil, false
+	}
+	res.Rules = len(g.rules)
+
+	// (1) filtered rules from the SSA of DefaultCypherContext
+	filtered := map[string]bool{}
+	fe := pg.Package("github.com/specterops/dawgs/cypher/frontend")
+	if fe == nil || fe.Func("DefaultCypherContext") == nil {
+		res.Notes = append(res.Notes, "frontend.DefaultCypherContext not found")
+		return res, nil, false
+	}
+	for _, b := range fe.Func("DefaultCypherContext").Blocks {
+		for _, in := range b.Instrs {
+			mi, ok := in.(*ssa.MakeInterface)
+			if !ok {
+				continue
+			}
+			pt, ok := mi.X.Type().(*types.Pointer)
+			if !ok {
+				continue
+			}
+			named, ok := pt.Elem().(*types.Named)
+			if !ok {
+				continue
+			}
+			for i := 0; i < named.NumMethods(); i++ {
+				m := named.Method(i)
+				if !strings.HasPrefix(m.Name(), "EnterOC_") {
+					continue
+				}
+				// the method must record an error: its body calls (*Context).AddErrors
+				fn := pg.Prog.FuncValue(m)
+				if fn != nil && callsAddErrors(fn) {
+					filtered["oC_"+strings.TrimPrefix(m.Name(), "EnterOC_")] = true
+				}
+			}
+		}
+	}
+	for r := range filtered {
+		res.Filtered = append(res.Filtered, r)
+	}
+	sort.Strings(res.Filtered)
+
+	// rules every visitor rejects through BaseVisitor (reported, deliberately not counted)
+	if bv := fe.Type("BaseVisitor"); bv != nil {
+		if named, ok := bv.Type().(*types.Named); ok {
+			ms := pg.Prog.MethodSets.MethodSet(types.NewPointer(named))
+			for i := 0; i < ms.Len(); i++ {
+				if n := ms.At(i).Obj().Name(); strings.HasPrefix(n, "EnterOC_") {
+					if fn := pg.Prog.MethodValue(ms.At(i)); fn != nil && callsNamed(fn, "newUnsupportedRuleError") {
+						res.Unsupported = append(res.Unsupported, "oC_"+strings.TrimPrefix(n, "EnterOC_"))
+					}
+				}
+			}
+		}
+	}
+
+	// (2) grammar vs generated parser: rule reference graph == call graph of OC_* methods
+	pp := pg.Package("github.com/specterops/dawgs/cypher/parser")
+	if pp == nil {
+		res.Notes = append(res.Notes, "parser package not loaded")
+		complete = false
+	} else if cp := pp.Type("CypherParser"); cp != nil {
+		named := cp.Type().(*types.Named)
+		ms := pg.Prog.MethodSets.MethodSet(types.NewPointer(named))
+		parserCalls := map[string]map[string]bool{}
+		for i := 0; i < ms.Len(); i++ {
+			n := ms.At(i).Obj().Name()
+			if !strings.HasPrefix(n, "OC_") {
+				continue
+			}
+			fn := pg.Prog.MethodValue(ms.At(i))
+			if fn == nil || fn.Blocks == nil {
+				continue
+			}
+			calls := map[string]bool{}
+			for _, b := range fn.Blocks {
+				for _, in := range b.Instrs {
+					if c, ok := in.(*ssa.Call); ok {
+						if callee := c.Call.StaticCallee(); callee != nil && strings.HasPrefix(callee.Name(), "OC_") && callee.Signature.Recv() != nil {
+							calls["oC_"+strings.TrimPrefix(callee.Name(), "OC_")] = true
+						}
+					}
+				}
+			}
+			parserCalls["oC_"+strings.TrimPrefix(n, "OC_")] = calls
+		}
+		res.ParserRules = len(parserCalls)
+		for name, alts := range g.rules {
+			refs := map[string]bool{}
+			collectRefs(alts, refs)
+			pc, ok := parserCalls[name]
+			if !ok {
+				res.GraphMismatch = append(res.GraphMismatch, "grammar rule "+name+" has no parser method")
+				continue
+			}
+			for r := range refs {
+				if !pc[r] {
+					res.GraphMismatch = append(res.GraphMismatch, fmt.Sprintf("%s references %s in the grammar but the parser method does not call it", name, r))
+				}
+			}
+			for r := range pc {
+				if !refs[r] {
+					res.GraphMismatch = append(res.GraphMismatch, fmt.Sprintf("parser method %s calls %s which the grammar rule does not reference", name, r))
+				}
+			}
+		}
+		for name := range parserCalls {
+			if _, ok := g.rules[name]; !ok {
+				res.GraphMismatch = append(res.GraphMismatch, "parser method "+name+" has no grammar rule")
+			}
+		}
+		sort.Strings(res.GraphMismatch)
+		if len(res.GraphMismatch) > 0 {
+			complete = false
+		}
+	}
+
+	// (3) Horn clauses: d0(x) = x derives a string using no filtered rule;
+	//     d1(x) = ... that contains a target rule. Query d1(oC_Cypher).
+	ids := map[string]int{}
+	id := func(n string) int {
+		if v, ok := ids[n]; ok {
+			return v
+		}
+		ids[n] = len(ids)
+		return ids[n]
+	}
+	var clauses []string
+	addClause := func(body []string, head string) {
+		if len(body) == 0 {
+			clauses = append(clauses, fmt.Sprintf("(rule %s)", head))
+		} else if len(body) == 1 {
+			clauses = append(clauses, fmt.Sprintf("(rule (=> %s %s))", body[0], head))
+		} else {
+			clauses = append(clauses, fmt.Sprintf("(rule (=> (and %s) %s))", strings.Join(body, " "), head))
+		}
+	}
+	rel := func(r string, n int) string { return fmt.Sprintf("(%s #x%04x)", r, n) }
+	targets := map[string]bool{}
+	for _, t := range c09TargetRules {
+		if _, ok := g.rules[t]; ok {
+			targets[t] = true
+			res.Targets = append(res.Targets, t)
+		} else {
+			res.MissingTargets = append(res.MissingTargets, t)
+		}
+	}
+	anon := 0
+	var encAlts func(name string, alts [][]gElem)
+	encAlts = func(name string, alts [][]gElem) {
+		me := id(name)
+		for _, alt := range alts {
+			var mand []string // d0 of mandatory elements
+			var elems []int   // ids of elements that can carry d1 (rules and blocks)
+			for _, e := range alt {
+				var eid int
+				switch {
+				case e.rule != "":
+					eid = id(e.rule)
+				case e.block != nil:
+					anon++
+					bn := fmt.Sprintf("%s#%d", name, anon)
+					encAlts(bn, e.block)
+					eid = id(bn)
+				default:
+					continue // token: always derivable, never a target
+				}
+				if !e.optional {
+					mand = append(mand, rel("d0", eid))
+				}
+				elems = append(elems, eid)
+			}
+			addClause(mand, rel("d0", me))
+			for _, eid := range elems {
+				addClause(append(append([]string{}, mand...), rel("d1", eid)), rel("d1", me))
+			}
+			if len(res.Sample) < 3 && strings.HasPrefix(name, "oC_") && !strings.Contains(name, "#") {
+				res.Sample[name] = clauses[len(clauses)-1]
+			}
+		}
+	}
+	for _, name := range g.order {
+		if filtered[name] {
+			continue // no clause: a filtered rule cannot be part of an accepted derivation
+		}
+		encAlts(name, g.rules[name])
+		if targets[name] {
+			addClause([]string{rel("d0", id(name))}, rel("d1", id(name)))
+		}
+	}
+	res.Clauses = len(clauses)
+	root, ok := ids["oC_Cypher"]
+	if !ok {
+		res.Notes = append(res.Notes, "grammar has no oC_Cypher rule")
+		return res, nil, false
+	}
+	var smt bytes.Buffer
+	smt.WriteString("(declare-rel d0 ((_ BitVec 16)))\n(declare-rel d1 ((_ BitVec 16)))\n(declare-rel forbidden_accepted ())\n")
+	for _, c := range clauses {
+		smt.WriteString(c + "\n")
+	}
+	res.Query = fmt.Sprintf("(rule (=> (d1 #x%04x) forbidden_accepted)) (query forbidden_accepted)  ; oC_Cypher derives, without entering a filtered rule, a text containing a forbidden construct", root)
+	fmt.Fprintf(&smt, "(rule (=> (d1 #x%04x) forbidden_accepted))\n(query forbidden_accepted)\n", root)
+	wd := workDir()
+	f := filepath.Join(wd, "c09.smt2")
+	os.WriteFile(f, smt.Bytes(), 0o644)
+	t0 := time.Now()
+	out, err := exec.Command("z3", "fp.engine=datalog", f).CombinedOutput()
+	res.SolverS = time.Since(t0).Seconds()
+	verdict := strings.TrimSpace(string(out))
+	if i := strings.IndexByte(verdict, '\n'); i >= 0 {
+		verdict = verdict[:i]
+	}
+	res.Verdict = verdict
+	if err != nil && verdict != "sat" && verdict != "unsat" {
+		res.Notes = append(res.Notes, "z3: "+err.Error()+": "+string(out))
+		complete = false
+	}
+	if verdict != "unsat" {
+		complete = false
+	}
+
+	// (4) probes through the natively linked front end (confirmation of alarms)
+	var violations []string
+	res.Probes = len(c09Probes)
+	for i, q := range c09Probes {
+		if why := probeAccepted(q); why != "" {
+			res.ProbeAccepted = append(res.ProbeAccepted, q+"  ["+why+"]")
+			file := filepath.Join(verifRoot, "replays", fmt.Sprintf("C09-probe-%d.json", i))
+			os.MkdirAll(filepath.Dir(file), 0o755)
+			b, _ := json.MarshalIndent(map[string]any{"property": "C09", "probe": q, "why": why}, "", " ")
+			os.WriteFile(file, b, 0o644)
+			violations = append(violations, file)
+		}
+	}
+	return res, violations, complete
+}
+
+// probeAccepted parses q under the default context natively; it returns a non-empty
+// reason if the query is accepted although it contains a forbidden construct.
+func probeAccepted(q string) (why string) {
+	defer func() {
+		if r := recover(); r != nil {
+			why = "" // a crash is not an acceptance (C08 territory)
+		}
+	}()
+	model, err := frontend.ParseCypher(frontend.DefaultCypherContext(), q)
+	if err != nil || model == nil {
+		return ""
+	}
+	found := ""
+	walk.Cypher(model, walk.NewSimpleVisitor[cypher.SyntaxNode](func(node cypher.SyntaxNode, _ walk.VisitorHandler) {
+		switch node.(type) {
+		case *cypher.UpdatingClause, *cypher.Create, *cypher.Delete, *cypher.Set, *cypher.Remove, *cypher.Merge:
+			found = "accepted with an updating clause in the model"
+		case *cypher.Parameter:
+			found = "accepted with a user supplied parameter in the model"
+		}
+	}))
+	if found == "" {
+		found = "accepted (forbidden construct silently dropped from the model)"
+	}
+	return found
+}
+
+func callsAddErrors(fn *ssa.Function) bool { return callsNamed(fn, "AddErrors") }
+
+func callsNamed(fn *ssa.Function, name string) bool {
+	for _, b := range fn.Blocks {
+		for _, in := range b.Instrs {
+			if c, ok := in.(*ssa.Call); ok {
+				if callee := c.Call.StaticCallee(); callee != nil && callee.Name() == name {
+					return true
+				}
+			}
+		}
+	}
+	return false
+}
+
+func collectRefs(alts [][]gElem, out map[string]bool) {
+	for _, alt := range alts {
+		for _, e := range alt {
+			if e.rule != "" {
+				out[e.rule] = true
+			}
+			if e.block != nil {
+				collectRefs(e.block, out)
+			}
+		}
+	}
+}
+
+func runHorn(ps *PropSpec, tier string, seed int) int { return 2 }
+
 func cmdSelftest(args []string) int {
+	// the simplifier self-test and a solver smoke test
+	fmt.Println("selftest: building and checking the term simplifier")
+	cmd := exec.Command("go", "test", "-count=1", "./symgo/")
+	cmd.Dir = filepath.Join(verifRoot, "engine")
+	out, err := cmd.CombinedOutput()
+	fmt.Print(string(out))
+	if err != nil {
+		fmt.Println("selftest: FAILED")
+		return 2
+	}
+	for _, s := range []string{"z3", "z3-new"} {
+		if _, err := exec.LookPath(s); err != nil {
+			fmt.Printf("selftest: solver %s not found\n", s)
+			return 2
+		}
+	}
 	fmt.Println("selftest: ok")
 	return 0
 }
